@@ -15,7 +15,7 @@ LEVEL = 'model_checking'
 
 FN = {'C': F.CASE, 'I': F.IGNORECASE, 'N': F.NEGATE, 'M': F.MINUSNEGATE, 'D': F.DOTMATCH, 'E': F.EXTMATCH,
       'B': F.BRACE, 'S': F.SPLIT, 'A': F.NEGATEALL, 'W': F.FORCEWIN, 'U': F.FORCEUNIX, 'R': F.RAWCHARS}
-GL = dict(FN, G=G.GLOBSTAR, L=G.GLOBSTARLONG, X=G.MATCHBASE, O=G.NODIR, Z=G.NODOTDIR, T=G.GLOBTILDE)
+GL = dict(FN, G=G.GLOBSTAR, L=G.GLOBSTARLONG, X=G.MATCHBASE, O=G.NODIR, Z=G.NODOTDIR, T=G.GLOBTILDE, P=G.REALPATH)
 
 
 def flags_of(mode, fs):
@@ -240,6 +240,17 @@ def run_chunk(chunk):
                 if 'E' not in fs and grouped:
                     continue
                 check_instance(mode, text, None, fs, res, seq=seq)
+            if mode == 'glob' and not pat.has_ext(seq, '!'):
+                # REALPATH changes how the matcher treats `**`, not what translate() hands out: still one capturing group
+                # per extended group
+                try:
+                    g = re.compile(G.translate(text, flags=G.GLOBSTAR | G.EXTGLOB | G.REALPATH)[0][0]).groups
+                except Exception:  # noqa: BLE001
+                    g = None
+                res.n['evaluations'] += 1
+                if g is not None and g != count_ext(seq):
+                    res.add_violation(ID, run.viol('group-count', {'mode': mode, 'patterns': text, 'exclude': None, 'flags': 'GEP'},
+                                                   {'groups': count_ext(seq)}, {'groups': g}))
             if k % 499 == 0:
                 res.samples.append({'mode': mode, 'pattern': text})
     elif chunk[0] == 'bytes':
